@@ -34,6 +34,8 @@ from fractions import Fraction
 import numpy as np
 
 ID = "C07"
+# computational entry points whose results are watched by the engine's retained-result oracle (mc/explore.py)
+RETAIN = [('hydrodiy.gis.grid', 'Grid.neighbours'), ('hydrodiy.gis.grid', 'Grid.cell2coord'), ('hydrodiy.gis.grid', 'Grid.coord2cell'), ('hydrodiy.gis.grid', 'Grid.cell2rowcol')]
 TECHNIQUE = ("bounded exhaustive enumeration of grid geometries x query points x cell numbers on the "
              "real Grid methods, judged by an exact Fraction model of the grid")
 RULE = ("every grid geometry (nrows, ncols) x cellsize x xll x yll of the tier's alphabets; per grid the "
